@@ -66,6 +66,7 @@ mod harnesses {
         // component codecs of the dependency are exact under the contract bodies (scalars: the real
         // canonicity comparison; points: accepted only on their canonical encoding), so a failure
         // here is an acceptance added by the proof / commitment / evaluation decoders themselves.
+        #[cfg(kani_canonical_points)]
         if let Ok(p) = &r {
             assert!(p.to_bytes() == bytes);
         }
